@@ -28,10 +28,15 @@ def texts_for(u, v):
         # both documents declare SharedName, at different lines / columns: one diagnostic with a label in each document
         ("" if u == "a" else "(* é *)\n\n(* padding so that the two documents have different line structure *)\n   ") +
         "TYPE SharedName : (s1_%s, s2_%s); END_TYPE\n" % (u, u),
+        # many problems in one document (more than any round number of them)
+        "TYPE\n" + "".join("  R_%s_%d : INT(%d..%d);\n" % (u, k, k + 5, k) for k in range(131)) + "END_TYPE\n",
+        # texts that are the same in every document (nothing in them names the document)
+        "PROGRAM same_text_lex\nVAR x : INT; END_VAR\n  x := ?;\nEND_PROGRAM\n",
+        "PROGRAM same_text_syn\nVAR x : INT END_VAR\nEND_PROGRAM\n",
     ]
 
 
-TEXT_NAMES = ["valid", "lexical", "syntax", "semantic", "depends", "shared"]
+TEXT_NAMES = ["valid", "lexical", "syntax", "semantic", "depends", "shared", "many", "same-lexical", "same-syntax"]
 
 
 def diag_key(d):
@@ -52,10 +57,10 @@ class World:
         dname, fpat = self.STYLES[style]
         self.root = os.path.join(tmp, dname)
         os.makedirs(self.root, exist_ok=True)
-        self.fname = {u: fpat % u for u in "ab"} if "%s" in fpat else {"a": fpat, "b": fpat.capitalize()}
+        self.fname = {u: fpat % u for u in "abc"} if "%s" in fpat else {"a": fpat, "b": fpat.capitalize(), "c": fpat.upper()}
         # the URI is the percent-encoded path, as editors send it
-        self.uris = {u: "file://" + urllib.parse.quote(os.path.join(self.root, self.fname[u])) for u in "ab"}
-        self.texts = {"a": texts_for("a", "b"), "b": texts_for("b", "a")}
+        self.uris = {u: "file://" + urllib.parse.quote(os.path.join(self.root, self.fname[u])) for u in "abc"}
+        self.texts = {"a": texts_for("a", "b"), "b": texts_for("b", "a"), "c": texts_for("c", "c")}
         self.ref_cache = {}
         self.cli_cache = {}
 
@@ -183,6 +188,11 @@ def check_history(world, history, res, tag, versions="increasing"):
                 if st_["line"] >= len(lines_u) or st_["character"] > len(lines_u[st_["line"]]):
                     res.violation("position-outside-document", "outside:" + names, {"diagnostic": diag_key(d_)}, case)
                     ok = False
+                elif d_.get("code") in ("P0019", "P0020") and "SharedName" not in text and \
+                        sum(1 for v_ in state.values() if "SharedName" in v_) > 1:
+                    res.violation("position-not-at-name", "shared-name-in-unrelated-document:" + names,
+                                  {"diagnostic": diag_key(d_)}, case)
+                    ok = False
                 elif d_.get("code") in ("P0019", "P0020") and "SharedName" in text and \
                         not lines_u[st_["line"]][st_["character"]:].startswith("SharedName"):
                     res.violation("position-not-at-name", "shared-name:" + names,
@@ -252,6 +262,19 @@ def shard(shard_i, nshards, payload):
                 res.distinct.add(core.key_of(seqs[i]))
                 if len(res.samples) < 2:
                     res.sample({"history": [[op, u, TEXT_NAMES[t]] for op, u, t in seqs[i]]})
+        # three documents: two that share a problem (the same name declared in both) and a third, unrelated one
+        three = [
+            [("open", "a", 5), ("open", "b", 5), ("open", "c", 0), ("change", "c", 1), ("change", "a", 5), ("change", "b", 5), ("change", "c", 0)],
+            [("open", "c", 0), ("open", "a", 5), ("open", "b", 5), ("change", "c", 0), ("change", "c", 2)],
+            [("open", "a", 5), ("open", "c", 2), ("open", "b", 5), ("change", "c", 0), ("change", "b", 0), ("change", "c", 0)],
+            [("open", "b", 5), ("open", "c", 0), ("open", "a", 5), ("change2", "c", 0), ("open", "c", 1)],
+        ]
+        for j, h in enumerate(three):
+            if j % nshards == shard_i % len(three) and shard_i < 2 * len(three):
+                ok = check_history(world, h, res, "three-documents", policies[(j + shard_i) % 4])
+                res.count("three-document-histories")
+                if ok:
+                    res.distinct.add(core.key_of("three", j, world.style))
         # random longer histories over generated documents
         for i in range(shard_i, payload["n_random"], nshards):
             rng = core.rng_for(payload["seed"], "c11rand", i)
@@ -266,15 +289,21 @@ def shard(shard_i, nshards, payload):
                             decls = rng.choice(faults)[2]
                     docs[u].append(vgen.render_unit(decls))
                 docs[u].append(world.texts[u][rng.choice([1, 2])])
+                docs[u].append(world.texts[u][5])
+                docs[u].append(world.texts[u][5])
                 # same-length re-layouts of the documents (a line break moved): positions change, the size does not
                 for base in list(docs[u]):
                     k1 = base.find("\n")
                     k2 = base.find(" ", k1 + 40) if k1 >= 0 else -1
                     if k1 > 0 and k2 > 0:
                         docs[u].append(base[:k1] + " " + base[k1 + 1:k2] + "\n" + base[k2 + 1:])
+            # a third document that has nothing to do with the other two (valid, or with a lexical / syntax error of its own)
+            gc_ = vgen.VGen(core.rng_for(payload["seed"], "c11doc", i, "c"), prefix="Cc", avoid=payload["avoid"])
+            docs["c"] = [vgen.render_unit(gc_.unit(n_types=1, n_fbs=1, n_programs=1, with_config=False, n_functions=0)),
+                         world.texts["c"][1], world.texts["c"][2], world.texts["c"][0]]
             hist = []
             for _ in range(rng.randint(4, payload["random_len"])):
-                u = rng.choice("ab")
+                u = rng.choice("aabbc")
                 hist.append((rng.choice(["open", "change", "change", "change2"]), u, rng.choice(docs[u])))
             ok = check_history(world, hist, res, "random", policies[(i // nshards) % 4])
             if ok:
